@@ -48,6 +48,8 @@ type retryOp struct {
 	ctx       string
 	close     string
 	script    []string
+	dc        bool   // ClientOption.DisableCache (mode nd: per-node clients from Nodes())
+	retire    string // cluster: "" / "none", or k = a topology refresh removes node A during the k-th connection call
 }
 
 func (o retryOp) line() string {
@@ -70,8 +72,15 @@ func (o retryOp) line() string {
 		}
 		ss[i] = s
 	}
-	return fmt.Sprintf("rt mode=%s api=%s dis=%s kinds=%s delay=%s ctx=%s close=%s script=%s", o.mode, o.api, b01(o.dis),
+	l := fmt.Sprintf("rt mode=%s api=%s dis=%s kinds=%s delay=%s ctx=%s close=%s script=%s", o.mode, o.api, b01(o.dis),
 		strings.Join(ks, ","), strings.Join(ds, ";"), o.ctx, o.close, strings.Join(ss, ";"))
+	if o.mode == "nd" {
+		l += " dc=" + b01(o.dc)
+	}
+	if o.retire != "" && o.retire != "none" {
+		l += " retire=" + o.retire
+	}
+	return l
 }
 
 func parseRetryOp(l string) (o retryOp, ok bool) {
@@ -105,6 +114,10 @@ func parseRetryOp(l string) (o retryOp, ok bool) {
 			}
 		case "ctx":
 			o.ctx = v
+		case "dc":
+			o.dc = v == "1"
+		case "retire":
+			o.retire = v
 		case "close":
 			o.close = v
 		case "script":
@@ -138,7 +151,7 @@ func rtKey(i int) string {
 	if i%2 == 0 {
 		return "{b}" + strconv.Itoa(i)
 	}
-	return "{a}" + strconv.Itoa(i)
+	return "{d}" + strconv.Itoa(i)
 }
 
 func rtIndex(a []string) int {
@@ -203,6 +216,7 @@ func delayAt(t []int64, attempts int) int64 {
 const (
 	nodeA = "s0n0:7000"
 	nodeB = "s1n0:7000"
+	nodeC = "s2n0:7000" // takes over node A's slots when the topology refresh of a `retire` episode drops A
 )
 
 func runRetryOne(o retryOp) (ans, oracle string, witness bool, hits []string) {
@@ -216,7 +230,7 @@ func runRetryOne(o retryOp) (ans, oracle string, witness bool, hits []string) {
 	cancel := func() {}
 	closedFlag := false
 	home := func(i int) string {
-		if len(o.kinds) > 0 && o.kinds[0] == 'M' {
+		if (len(o.kinds) > 0 && o.kinds[0] == 'M') || (o.retire != "" && o.retire != "none") {
 			return nodeA
 		}
 		if i%2 == 0 {
@@ -225,12 +239,12 @@ func runRetryOne(o retryOp) (ans, oracle string, witness bool, hits []string) {
 		return nodeB
 	}
 	other := func(addr string) string {
-		if addr == nodeA {
-			return nodeB
+		if addr == nodeB {
+			return nodeA
 		}
-		return nodeA
+		return nodeB
 	}
-	tx := len(o.kinds) > 0 && o.kinds[0] == 'M' // probe batches: MULTI first, EXEC last, every key in one slot
+	tx := (len(o.kinds) > 0 && o.kinds[0] == 'M') || (o.retire != "" && o.retire != "none") // every key in one slot of node A
 	idxOf := func(a []string) int {
 		if isCmd(a, "MULTI") {
 			return 0
@@ -257,8 +271,8 @@ func runRetryOne(o retryOp) (ans, oracle string, witness bool, hits []string) {
 			client.Close()
 		}
 	}
-	var slots rueidis.RedisMessage
-	var served bool
+	var slots, slots2 rueidis.RedisMessage
+	var served, retired bool
 	var servedMu sync.Mutex
 	w.respond = func(addr string, e *entry, i int, cctx context.Context) rueidis.RedisResult {
 		a := e.cmds[i]
@@ -266,6 +280,9 @@ func runRetryOne(o retryOp) (ans, oracle string, witness bool, hits []string) {
 		case isCmd(a, "CLUSTER", "SLOTS"):
 			servedMu.Lock()
 			defer servedMu.Unlock()
+			if retired {
+				return res(slots2)
+			}
 			if served {
 				return rueidis.NewErrorResult(errors.New("topology frozen"))
 			}
@@ -305,10 +322,18 @@ func runRetryOne(o retryOp) (ans, oracle string, witness bool, hits []string) {
 		mu.Unlock()
 		if first {
 			trigger(k)
+			if o.retire == strconv.Itoa(k) && addr == nodeA && client != nil {
+				// a topology refresh drops node A while this call is in flight: a command for an uncovered slot
+				// makes the cluster client refresh synchronously (pick -> refresh), the fakes now report C instead of A
+				servedMu.Lock()
+				retired = true
+				servedMu.Unlock()
+				client.Do(context.Background(), client.B().Get().Key("{a}x").Build())
+			}
 		}
 		slot := 3300
 		if idx%2 == 1 {
-			slot = 15495
+			slot = 11298
 		}
 		switch code {
 		case 'o':
@@ -360,20 +385,35 @@ func runRetryOne(o retryOp) (ans, oracle string, witness bool, hits []string) {
 		opt.InitAddress = []string{"s0:26379"}
 		opt.Sentinel.MasterSet = "mymaster"
 		client, err = rueidis.VerifRoutingNewSentinel(opt, w.nodeFn())
-	case "cl":
+	case "cl", "nd":
 		opt.InitAddress = []string{nodeA}
-		var shards []rueidis.RedisMessage
-		for s := 0; s < 2; s++ {
-			shards = append(shards, rueidis.VerifArray(rueidis.VerifInt(int64(s*8192)), rueidis.VerifInt(int64(s*8192+8191)),
-				rueidis.VerifArray(rueidis.VerifBlobString(fmt.Sprintf("s%dn0", s)), rueidis.VerifInt(7000), rueidis.VerifBlobString("id"))))
+		if o.mode == "nd" {
+			opt.DisableCache = o.dc
 		}
-		slots = rueidis.VerifArray(shards...)
+		shard := func(from, to int, host string) rueidis.RedisMessage {
+			return rueidis.VerifArray(rueidis.VerifInt(int64(from)), rueidis.VerifInt(int64(to)),
+				rueidis.VerifArray(rueidis.VerifBlobString(host), rueidis.VerifInt(7000), rueidis.VerifBlobString("id")))
+		}
+		slots = rueidis.VerifArray(shard(0, 8191, "s0n0"), shard(8192, 15000, "s1n0")) // 15001.. uncovered
+		slots2 = rueidis.VerifArray(shard(0, 8191, "s2n0"), shard(8192, 16383, "s1n0"))
 		client, err = rueidis.VerifRoutingNewCluster(opt, w.nodeFn())
+	}
+	var whole rueidis.Client // the client to close at the end
+	if client != nil && err == nil && o.mode == "nd" {
+		whole = client
+		client = whole.Nodes()[nodeA] // a per-node client handed out by clusterClient.Nodes()
+		if client == nil {
+			whole.Close()
+			return "err:no-node-client", "", false, nil
+		}
+		defer whole.Close()
 	}
 	if client == nil || err != nil {
 		return "err:" + hx(fmt.Sprint(err)), "", false, nil
 	}
-	defer client.Close()
+	if whole == nil {
+		defer client.Close()
+	}
 	w.take()
 	w.mu.Lock()
 	w.calls = 0
@@ -423,7 +463,7 @@ func runRetryOne(o retryOp) (ans, oracle string, witness bool, hits []string) {
 		case "do":
 			results = []rueidis.RedisResult{client.Do(ctx, mk(0))}
 		case "cache":
-			results = []rueidis.RedisResult{client.DoCache(ctx, b.Get().Key(rtKey(0)).Cache(), time.Minute)}
+			results = []rueidis.RedisResult{client.DoCache(ctx, b.Get().Key(keyOf(0)).Cache(), time.Minute)}
 		case "multi":
 			cs := make([]rueidis.Completed, len(o.kinds))
 			for i := range cs {
@@ -433,7 +473,7 @@ func runRetryOne(o retryOp) (ans, oracle string, witness bool, hits []string) {
 		case "mcache":
 			cs := make([]rueidis.CacheableTTL, len(o.kinds))
 			for i := range cs {
-				cs[i] = rueidis.CT(b.Get().Key(rtKey(i)).Cache(), time.Minute)
+				cs[i] = rueidis.CT(b.Get().Key(keyOf(i)).Cache(), time.Minute)
 			}
 			results = client.DoMultiCache(ctx, cs...)
 		}
@@ -455,6 +495,9 @@ func runRetryOne(o retryOp) (ans, oracle string, witness bool, hits []string) {
 	ho := func(idx int, addr string) string {
 		if addr == home(idx) {
 			return "H"
+		}
+		if addr == nodeC {
+			return "N"
 		}
 		return "O"
 	}
@@ -636,6 +679,16 @@ func emitRetry(c *Ctx, o retryOp) {
 		c.Hit("resend")
 		c.Emit(oracle, "ok", false)
 	}
+	if o.retire != "" && o.retire != "none" && oracle != "" {
+		for _, it := range strings.Split(strings.TrimPrefix(oracle[strings.Index(oracle, "items=")+6:], ""), ",") {
+			f := strings.Split(it, ":")
+			if len(f) == 4 && f[0] == "w" && !strings.ContainsAny(f[1], "MAX") {
+				c.Fail("amo:cluster-retired-conn:non-retryable-resent", line,
+					"a command that is neither read-only nor marked retryable was sent again after a transport error on a connection whose node a topology refresh had removed (no MOVED/ASK/errConnExpired in between): "+ans)
+				break
+			}
+		}
+	}
 	if witness {
 		c.Fail("retry:cluster-domulti:negative-delay-member-resent", line,
 			"cluster "+o.api+": a member whose RetryDelay returned a negative delay was sent again (doresultfn/resultcachefn put it into retries.m before looking at the delay; another member's redirect or non-negative delay then re-sends the whole map)")
@@ -647,14 +700,138 @@ func replayRetry(c *Ctx, lines []string) {
 		if strings.HasPrefix(l, "!") {
 			continue
 		}
+		if strings.HasPrefix(l, "ndc ") {
+			emitNdc(c, strings.Contains(l, "dis=1"), strings.Contains(l, "dc=1"))
+			continue
+		}
 		if o, ok := parseRetryOp(l); ok {
 			emitRetry(c, o)
 		}
 	}
 }
 
+// genRetire: cluster Do / DoMulti / DoCache / DoMultiCache while a topology refresh removes the node
+// the command is in flight on (suite `amo`, also part of `retry`)
+func genRetire(c *Ctx) {
+	for _, api := range []string{"do", "multi", "cache", "mcache"} {
+		kindSets := []string{"w", "r", "m"}
+		if api == "multi" {
+			kindSets = []string{"w", "r", "ww", "wr", "rw", "rr", "mw"}
+		}
+		if api == "cache" {
+			kindSets = []string{"r"}
+		}
+		if api == "mcache" {
+			kindSets = []string{"r", "rr"}
+		}
+		for _, ks := range kindSets {
+			for _, sc := range []string{"x", "xx", "xo", "L", "xL", "e", "o", "T", "xM"} {
+				if (api == "cache" || api == "mcache") && strings.Contains(sc, "A") {
+					continue
+				}
+				for _, dl := range []int64{0, -1, 1000} {
+					for _, dis := range []bool{false, true} {
+						for _, ret := range []string{"1", "2"} {
+							if ret == "2" && (api == "multi" || api == "mcache") {
+								continue // rounds of a batch on two connections are not numbered deterministically
+							}
+							o := retryOp{mode: "cl", api: api, dis: dis, kinds: []byte(ks), ctx: "bg", close: "none", retire: ret}
+							for range ks {
+								o.delay = append(o.delay, []int64{dl})
+								o.script = append(o.script, sc)
+							}
+							emitRetry(c, o)
+						}
+					}
+				}
+			}
+		}
+	}
+}
+
+func emitNdc(c *Ctx, dis, dc bool) {
+	line := fmt.Sprintf("ndc dis=%s dc=%s", b01(dis), b01(dc))
+	w := newWorld()
+	w.quiet = topoQuiet
+	shard := func(from, to int, host string) rueidis.RedisMessage {
+		return rueidis.VerifArray(rueidis.VerifInt(int64(from)), rueidis.VerifInt(int64(to)),
+			rueidis.VerifArray(rueidis.VerifBlobString(host), rueidis.VerifInt(7000), rueidis.VerifBlobString("id")))
+	}
+	slots := rueidis.VerifArray(shard(0, 16383, "s0n0"))
+	w.respond = func(addr string, e *entry, i int, _ context.Context) rueidis.RedisResult {
+		if isCmd(e.cmds[i], "CLUSTER", "SLOTS") {
+			return res(slots)
+		}
+		if isCmd(e.cmds[i], "MGET") {
+			return res(strs("v"))
+		}
+		return okResult()
+	}
+	client, err := rueidis.VerifRoutingNewCluster(rueidis.ClientOption{InitAddress: []string{nodeA}, DisableRetry: dis, DisableCache: dc}, w.nodeFn())
+	if err != nil || client == nil {
+		c.Emit(line, "err", true)
+		return
+	}
+	defer client.Close()
+	nc := client.Nodes()[nodeA]
+	w.take()
+	ans := "none"
+	func() {
+		defer func() {
+			if r := recover(); r != nil {
+				ans = "panic"
+			}
+		}()
+		rueidis.MGetCache(nc, context.Background(), time.Minute, []string{"{b}k"})
+	}()
+	if log := w.take(); len(log) > 0 && ans != "panic" {
+		ans = log[0].kind
+	}
+	c.Emit(line, ans, true)
+	c.Hit("ndc")
+}
+
+func init() {
+	suites["amo"] = suite{
+		rule:   "distinct op lines (cluster entry point x command kinds x reply script x RetryDelay x DisableRetry x point at which a topology refresh removes the node in use)",
+		run:    func(c *Ctx) { genRetire(c) },
+		replay: replayRetry,
+	}
+}
+
 func runRetry(c *Ctx) {
 	modes := []string{"single", "sa", "se", "cl"}
+	genRetire(c)
+	// ---- per-node clients handed out by clusterClient.Nodes(): DisableRetry x DisableCache
+	for _, dis := range []bool{false, true} {
+		for _, dc := range []bool{false, true} {
+			emitNdc(c, dis, dc)
+			for _, api := range []string{"do", "multi", "cache", "mcache"} {
+				kindSets := []string{"r", "w", "m"}
+				if api == "multi" {
+					kindSets = []string{"rr", "rw", "mr"}
+				}
+				if api == "cache" {
+					kindSets = []string{"r"}
+				}
+				if api == "mcache" {
+					kindSets = []string{"rr"}
+				}
+				for _, ks := range kindSets {
+					for _, sc := range []string{"x", "L", "xx", "xL", "e", "n", "T", "X", "o"} {
+						for _, dl := range []int64{0, -1} {
+							o := retryOp{mode: "nd", api: api, dis: dis, dc: dc, kinds: []byte(ks), ctx: "bg", close: "none"}
+							for range ks {
+								o.delay = append(o.delay, []int64{dl})
+								o.script = append(o.script, sc)
+							}
+							emitRetry(c, o)
+						}
+					}
+				}
+			}
+		}
+	}
 	// ---- the witness of the cluster DoMulti gap first (and its DoMultiCache twin)
 	emitRetry(c, retryOp{mode: "cl", api: "multi", kinds: []byte("rr"), delay: [][]int64{{0}, {-1}}, ctx: "bg", close: "none", script: []string{"M", "x"}})
 	emitRetry(c, retryOp{mode: "cl", api: "multi", kinds: []byte("rr"), delay: [][]int64{{0}, {-1}}, ctx: "bg", close: "none", script: []string{"x", "x"}})
